@@ -9,3 +9,10 @@ import RdfModel.Props.C10D
 #print axioms RdfModel.C10D.Witness.flat_spec
 #print axioms RdfModel.C10D.wf_witness
 #print axioms RdfModel.C10D.wf_fails_for_other
+#print axioms RdfModel.C10D.jld_emits_wf
+#print axioms RdfModel.C10D.jld_run_emits_wf
+#print axioms RdfModel.C10D.jld_refines_fragment_partial
+#print axioms RdfModel.C10D.jld_flat_roundtrip
+#print axioms RdfModel.C10D.flat_drops_untagged
+#print axioms RdfModel.C10D.jld_refines_fragment_false
+#print axioms RdfModel.C10D.Witness.plain
